@@ -49,7 +49,8 @@ type counterparty struct {
 	// height to trust when one of them is filled in later
 	tmSkipped []int64
 	tmAnchor  map[int64]int64
-	tmMode    int // next header: 0 next block, 1 skip one block first, 2 fill in a skipped block
+	tmMode    int     // next header: 0 next block, 1 skip one block first, 2 fill in a skipped block
+	tmPrev    *tmStub // the previous revision of the same chain (the client may still hold its consensus states)
 	tm        *tmStub
 	bsc       *bscWorld
 	eth       *ethWorld
@@ -141,6 +142,27 @@ func (LifecycleScenario) Generate(rng *rand.Rand, focus, tier string) kernel.Pla
 		add("block", 2)
 		add("advance", 19+rng.Int63n(8))
 		add("block", 3)
+	}
+	if focus == "C07" && kernel.Chance(rng, 0.85) || kernel.Chance(rng, 0.05) {
+		// prelude: a Tendermint client is created, updated, upgraded to the next revision of the same chain,
+		// and then offered headers of the new revision anchored in the old one
+		name := rng.Int63n(7)
+		add("create", name, 0, 0, rng.Int63())
+		add("block", 2)
+		add("advance", 21)
+		add("block", 2)
+		add("update", name, 1)
+		add("block", 2)
+		add("upgrade", name, 3, 0, rng.Int63())
+		add("block", 2)
+		add("advance", 21)
+		add("block", 2)
+		for k := 0; k < 3; k++ {
+			add("update", name, 3*rng.Int63n(5))
+			add("block", 2)
+			add("update", name, 1+3*rng.Int63n(5))
+			add("block", 2)
+		}
 	}
 	for i := 0; i < n; i++ {
 		v := int64(0)
@@ -411,6 +433,18 @@ func (w *lcWorld) opProposal(op kernel.Op) {
 				w.rec.Fault("upgrade.same_chain_earlier_height")
 			}
 		}
+		if p.cp == nil && cur != nil && cur.kind == "tm" && cur.valid && op.Arg(1) == 3 {
+			// the same Tendermint chain after a coordinated upgrade: next revision number, higher heights, the
+			// validators the old revision's last block announced
+			old := cur.cp.tm
+			ol := old.last()
+			ns := &tmStub{chainID: fmt.Sprintf("peer-%d", old.rev+1), rev: old.rev + 1, pool: old.pool, blocks: map[int64]*stubBlock{}}
+			h0 := ol.h + 3
+			ns.blocks[h0] = &stubBlock{h: h0, t: w.now, appHash: bytes.Repeat([]byte{byte(old.rev + 1)}, 32), vals: ol.next, next: ol.next}
+			ns.heights = []int64{h0}
+			p.kind, p.cp = "tm", &counterparty{kind: "tm", tm: ns, tmPrev: old}
+			w.rec.Fault("upgrade.next_revision")
+		}
 		if p.cp == nil && cur != nil && cur.kind == "tm" && cur.valid && op.Arg(1) == 2 {
 			// the same Tendermint chain at the stub's current block: usually a height the client already tracks
 			p.kind, p.cp = "tm", cur.cp
@@ -573,6 +607,29 @@ func (w *lcWorld) opUpdate(op kernel.Op) {
 	if cl.kind == "tss" {
 		signer = w.tss
 	}
+	if cl.kind == "tm" && cl.cp.tmPrev != nil && op.Arg(1)%3 == 0 {
+		// a header of the new revision that names a consensus state of the previous revision as its trust anchor
+		// (the old state's next validators are the new revision's validators, so the signatures would do)
+		s, old := cl.cp.tm, cl.cp.tmPrev
+		prev, ol := s.last(), old.last()
+		w.now = w.now.Add(3 * time.Second)
+		b := &stubBlock{h: prev.h + 1, t: w.now, appHash: bytes.Repeat([]byte{9}, 32), vals: prev.next, next: prev.next}
+		vs, keys, _ := s.valset(b.vals)
+		nvs, _, _ := s.valset(b.next)
+		hdr := node.MakeTMHeader(s.chainID, b.h, b.t, b.appHash, vs, nvs, keys, nil)
+		hdr.TrustedHeight = clienttypes.NewHeight(old.rev, uint64(ol.h))
+		tv, _, _ := old.valset(ol.next)
+		tp, _ := tv.ToProto()
+		hdr.TrustedValidators = tp
+		msg, err := clienttypes.NewMsgUpdateClient(name, hdr, w.relayer.Acc)
+		if err != nil {
+			return
+		}
+		w.rec.Fault("byz.hdr.trusted_height_of_previous_revision")
+		w.mempool = append(w.mempool, &lcTx{kind: "badupdate", signer: w.relayer, msgs: []sdk.Msg{msg}, upd: &lcUpd{name: name, cl: cl},
+			desc: fmt.Sprintf("update %s to %d-%d trusting %d-%d of the previous revision", name, s.rev, b.h, old.rev, ol.h)})
+		return
+	}
 	if cl.kind == "tm" {
 		cl.cp.tmMode = kernel.Mod(op.Arg(1), 4) % 3 // 0,1,2,0
 	}
@@ -613,7 +670,7 @@ func (w *lcWorld) block(n int) {
 			continue
 		}
 		var pre map[string]string
-		if tx.kind == "update" {
+		if tx.kind == "update" || tx.kind == "badupdate" {
 			pre = w.clientPrefix(tx.upd.name)
 		}
 		res := w.host.DeliverTx(bz)
@@ -631,6 +688,15 @@ func (w *lcWorld) block(n int) {
 				tx.prop.id = id
 				w.props = append(w.props, tx.prop)
 				w.mempool = append(w.mempool, &lcTx{kind: "govvote", signer: w.gov, msgs: []sdk.Msg{node.VoteYesMsg(id, w.gov)}, desc: fmt.Sprintf("vote %d", id)})
+			}
+		case "badupdate":
+			if w.clients[tx.upd.name] != tx.upd.cl {
+				continue
+			}
+			if ok {
+				w.rec.Violate("C07", "unsound_accept", "trusted_height_of_previous_revision", "accepted: %s", tx.desc)
+			} else {
+				w.rec.Probe("update.rejected.trusted_height_of_previous_revision")
 			}
 		case "update":
 			cl := tx.upd.cl
